@@ -1,5 +1,7 @@
 """C07 — stream search equals in-memory search for every read schedule (DESIGN.md §5 C07)."""
 from rules.stream import RULES_C07 as RULES, STREAM_CONFIGS
+from rules.agree import r20_1
+RULES = list(RULES) + [('R20.1', r20_1)]
 
 LEVEL = 'other'
 THOROUGH_CONFIGS = ['default', 'std', 'logging']
